@@ -118,6 +118,30 @@ CHECKS = {
                 "minimal pairs in the thorough tier; connections use distinct 4-tuples",
         "technique": "iterative context-bounded schedule enumeration with a differential (solo-run) oracle",
     },
+    "C06": {
+        "category": "exploration",
+        "text": "The real OutputBuilder is driven with every (record length n in 0..40, carrying packets k in 1..8) pair and every "
+                "sequence of (direction, n, k) records to depth 2 (thorough 3) over n in {0,1,2,3,7,8,9,1460,16384}, k in "
+                "{1,2,3,4,9}, IPv4 and IPv6; the whole program is run over the product of option sets (-m, -a, -c, -p, -g) x 9 "
+                "capture kinds (decryptable, keyless, unknown QUIC version, HTTP on 443, junk UDP, empty, mixed). Every result is "
+                "parsed by a strict independent pcapng/Ethernet/IP/TCP/UDP reader that recomputes all lengths and checksums and "
+                "replays sequence/ack bookkeeping.",
+        "design_ref": "DESIGN.md section 5, C06",
+        "note": "trusted: the strict reader (mc/model/pcapio.py, net.py); 'a standard reassembler' is our own in-order reassembler",
+        "technique": "bounded exhaustive enumeration of builder histories and option products, judged by an independent strict parser",
+    },
+    "C11": {
+        "category": "fault_enumeration",
+        "text": "Exhaustive sum sweep on the real checksum routines: for IPv4/IPv6 x TCP/UDP x even/odd length x base payloads a "
+                "16-bit word takes all 65 536 values (every carry/fold boundary, sums of exactly 0x10000, checksums 0x0000/0xffff), "
+                "each packet with the correct checksum and with wrong values, against an independent RFC 1071 receiver test; and "
+                "all 256 subsets of 8 designated packets of a TLS+QUIC capture corrupted, comparing export(-c) with "
+                "export(without -c) of the capture with those packets removed.",
+        "design_ref": "DESIGN.md section 5, C11",
+        "note": "trusted: RFC 1071 implementation in mc/model/net.py; UDP checksum 0 (not computed) and alternative zero "
+                "representations are outside the dichotomy and not generated",
+        "technique": "exhaustive enumeration of the 16-bit sum domain + all corruption subsets with a differential oracle",
+    },
 }
 
 NOT_YET = "check not built yet in this round (planned: bounded exhaustive exploration, see DESIGN.md section 5)"
